@@ -33,6 +33,34 @@ PROPS = {
         },
         "assumptions": COMMON_ASSUME + STR_STUBS,
     },
+    "C09": {
+        "groups": [
+            {"name": "prim", "tags": "verif", "run": "^VH_C09_"},
+            {"name": "event", "tags": "verif,binary_log", "run": "^VH_C01_", "flags": {"gen": True, "harness-timeout": 280},
+             "quick": {"params": "strlen=2,keylen=0,symkeylen=1,errslice=2,pairs=0"},
+             "thorough": {"params": "strlen=3,keylen=1,symkeylen=2,errslice=3,pairs=1", "harness-timeout": 2400}},
+        ],
+        "level": "model_checking",
+        "bounds": {
+            "primitives": "appendCborTypePrefix and every AppendInt*/AppendUint* for all 2^64 argument values (symbolic); AppendFloat32/64 all bit patterns; definite-length strings/bytes/embedded JSON/embedded CBOR/hex at lengths 0,1,22,23,24,25,255,256,257,65535,65536 (concrete lengths, symbolic first/last payload byte); every slice encoder at element counts 0,1,2,23,24,25,256; tags 1/63/260/261/262/263",
+            "events": "under -tags binary_log, one inductive step per exported field method of *Event/Context/*Array (generated from the method sets) from an arbitrary buffer '0xbf + complete pairs', plus the whole-line harness; strings <= 2 symbolic bytes (thorough 3)",
+            "outside": "lengths other than the listed boundary neighbours are covered through the full-range header lemma (type_prefix) plus the observation that every length header is produced by `len <= 23 ? major|len : appendCborTypePrefix(major, len)`; canonical (shortest) encoding is not required by the property",
+        },
+        "assumptions": COMMON_ASSUME + STR_STUBS + ["oracle: independent RFC 8949 reader in harness/internal/zzverif/cbor.go (shares no code with zerolog's decoder)"],
+    },
+    "C17": {
+        "groups": [{"name": "cbor", "tags": "verif", "run": "^VH_C17_", "flags": {"harness-timeout": 280},
+                    "quick": {"params": "n=3,tail=1,cutextra=0"},
+                    "thorough": {"params": "n=4,tail=2,cutextra=1", "harness-timeout": 3000, "max-paths": 5000000}}],
+        "level": "model_checking",
+        "bounds": {
+            "quick": "arbitrary inputs of 0..3 symbolic bytes through Cbor2JsonManyObjects and the three Decode* entry points; directed inputs = [context prefix] + head of every major type with additional information 24..31 + fully symbolic 1/2/4/8-byte argument + 0..1 arbitrary byte, in 8 contexts (top level, inside indefinite map, inside indefinite array, behind tags 1, 63, 260, 261, 263); cut points: every prefix of two-event streams built with the real encoder (8 value kinds, symbolic values)",
+            "thorough": "arbitrary inputs up to 4 bytes, 0..2 trailing bytes after the directed heads, a second symbolic field and a symbolic second event in the cut-point streams",
+            "assertions": "every implicit run-time check met by the interpreter (index, slice bounds, nil dereference, negative/oversized make, failed type assertion, division by zero) is asked of the solver; every make/append is checked against a budget of 16 KiB + 64 bytes per input byte (symbolic sizes by the solver; natively by runtime.MemStats in the replay)",
+            "outside": "inputs longer than the bound (64 KiB streams), nesting deeper than the inputs of the bound allow; bufio.Reader/bytes.Reader/bytes.Buffer are executed from their real SSA",
+        },
+        "assumptions": COMMON_ASSUME + STR_STUBS[:2] + STR_STUBS[3:6],
+    },
     "C13": {
         "groups": [
             {"name": "int", "tags": "verif", "run": "^VH_C13_(basic_step|compose)$", "flags": {"solver": "cvc5-int", "solver-timeout-ms": 120000}},
@@ -83,6 +111,16 @@ NOT_APPLICABLE = [
 ]
 
 MANIFEST_TEXT = {
+    "C17": {
+        "level_text": "Bounded model checking of the real decoder on arbitrary symbolic input buffers: each implicit run-time check and each allocation size becomes a solver query, so a satisfiable one is a concrete crashing / over-allocating input (replayed natively); plus every cut point of encoder-built two-event streams.",
+        "design_ref": "DESIGN.md §3 C17",
+        "level_note": "Bounds on input length (3-4 arbitrary bytes; up to 13 bytes in the directed header harnesses). Decode errors surfacing as panics with ordinary error values from DecodeObjectToStr (which has no error result) are not counted as violations; runtime errors are.",
+    },
+    "C09": {
+        "level_text": "Bounded model checking of the binary encoder against an independent generic CBOR reader: header arithmetic for all 2^64 arguments, every integer/float primitive over its full range, length headers on both sides of every boundary, and (under -tags binary_log) one inductive step per field method showing that every call appends complete well-formed text-keyed pairs.",
+        "design_ref": "DESIGN.md §3 C09",
+        "level_note": "String lengths are concrete boundary values (the engine has no symbolic-length buffers); value checks are per primitive, structure checks per method; trusted: the oracle reader, stubs as listed in the evidence.",
+    },
     "C13": {
         "level_text": "Bounded model checking: one-step lemmas of the real Sample methods from arbitrary sampler states (which compose to histories of any length) plus short histories with fully symbolic clocks against a reference model written in the harness.",
         "design_ref": "DESIGN.md §3 C13",
